@@ -160,6 +160,63 @@ def c03_extra(ctx: Ctx):
     return {"text": text, "points": pts}
 
 
+def cond_nest_extra(ctx: Ctx):
+    """assignments whose whole right-hand side is a Conditional, with another Conditional or a relation
+    as an *operand* of + * unary minus / a relation / a power inside a branch, inside the condition, or as
+    a function argument (printers give `?:` / `where` different syntactic shapes in these positions)"""
+    rng = ctx.rng
+    names = ["x", "y", "z", "a"]
+
+    def leaf():
+        return rng.choice(names + ["0.5", "2", "1.25", "3"])
+
+    def rel():
+        return f"{rng.choice(['Lt', 'Gt', 'Le', 'Ge'])}({rng.choice(names)}, {rng.choice(['0.25', '1', '-0.5', rng.choice(names)])})"
+
+    def cond(depth):
+        return f"Conditional({rel()}, {branch(depth - 1)}, {branch(depth - 1)})"
+
+    def operand(depth):
+        k = rng.random()
+        if k < 0.55 and depth > 0:
+            return cond(depth)
+        if k < 0.75:
+            return rel()
+        return leaf()
+
+    def branch(depth):
+        k = rng.random()
+        if depth <= 0 or k < 0.15:
+            return leaf()
+        o = operand(depth)
+        if k < 0.35:
+            return f"{leaf()}*{o}"
+        if k < 0.5:
+            return f"{o}*{leaf()} + {leaf()}"
+        if k < 0.6:
+            return f"-{o}"
+        if k < 0.7:
+            return f"{leaf()} - {o}"
+        if k < 0.78:
+            return f"{leaf()}/(2 + {o})"
+        if k < 0.85:
+            return f"(1 + {o})**2"
+        if k < 0.92:
+            return f"exp(-{o})"
+        return o
+
+    e = [cond(2) for _ in range(3)]
+    text = (f"states(x=0.5, y=-0.25, z=1.5)\nparameters(a=0.75)\nq = {e[0]}\ndx_dt = q - x\ndy_dt = {e[1]}\ndz_dt = {e[2]}\n")
+    pts = []
+    for _ in range(8):
+        pts.append({"x": rng.uniform(-2, 2), "y": rng.uniform(-2, 2), "z": rng.uniform(-2, 2), "a": rng.uniform(-2, 2), "t": 0.5, "dt": 0.01})
+    return {"text": text, "points": pts}
+
+
+def cond_extra(ctx: Ctx):
+    return cond_nest_extra(ctx) if ctx.rng.random() < 0.6 else c03_extra(ctx)
+
+
 def big_cfg(ctx, k):
     cfg = gen.ModelCfg()
     if k % 4 == 0:
